@@ -235,6 +235,33 @@ class Witness(object):
 
         # 4. set(backends) in WorkflowGraph.active_backends: observed directly through its return value (see dump)
 
+        # 5. the names of the formats ExperimentConfigurationFactory.get_config_parser walks through, for directories
+        #    that are readable in more than one format: the order in which a SET of the (lower-cased) priority names
+        #    iterates in this process, projected on the formats that are present (what any set-typed traversal of the
+        #    priorities would try first)
+        F = conf.ExperimentConfigurationFactory
+        orig_gcp = F.__dict__['get_config_parser'].__func__
+
+        def get_config_parser(cls, path, is_instance, format_priority=None, **kw):
+            try:
+                if os.path.isdir(path):
+                    names = [n.lower() for n in (format_priority or cls.default_priority)]
+                    present = []
+                    for n in names:
+                        try:
+                            if n not in present and cls.format_map[n].format_found_in_directory(path, is_instance, **kw):
+                                present.append(n)
+                        except Exception:
+                            pass
+                    order = [n for n in {x for x in names} if n in present]
+                    me.rec('conf.format_priority', order, {'op': 'project', 'a': names, 'keep': sorted(present)})
+            except Exception:
+                pass
+            return orig_gcp(cls, path, is_instance, format_priority=format_priority, **kw)
+
+        F.get_config_parser = classmethod(get_config_parser)
+        self.undo.append(lambda: setattr(F, 'get_config_parser', classmethod(orig_gcp)))
+
     def uninstall(self):
         for u in self.undo:
             u()
@@ -373,6 +400,15 @@ def load(task, scratch, listing, witness):
         import shutil
         private = os.path.join(inst_root, 'pkg', os.path.basename(pkg_path))
         shutil.copytree(pkg_path, private, symlinks=True)
+    if task.get('preload'):
+        # "a package that has been loaded before": a first load with the default updateInstanceFiles=True stores the FlowIR
+        # translation of a non-FlowIR package next to its source (conf/flowir_package.yaml) - the directory is then
+        # readable in two formats
+        try:
+            experiment.model.conf.ExperimentConfigurationFactory.configurationForExperiment(
+                private, platform=platform, createInstanceFiles=False, updateInstanceFiles=True, primitive=True)
+        except Exception:
+            pass
     listing.k = task.get('listing')
     listing.only_under = [scratch, task.get('corpus_root') or os.path.dirname(pkg_path)]
     mark = len(witness.records)
